@@ -1,9 +1,11 @@
 #!/bin/bash
-# usage: confirm_seed.sh <worktree> <n> <demo destination relative to worktree> <property> 
+# usage: confirm_seed.sh <worktree> <n> <demo destination relative to worktree> <property> [number under /verif/seeded, default: first free]
 # confirms: builds, suite result identical to the clean baseline, demo fails with the patch and passes without; then stores it in /verif/seeded
 set -u
 export GOFLAGS=-mod=mod GOPROXY=off GOSUMDB=off GOTOOLCHAIN=local
 wt=$1; n=$2; dest=$3; prop=$4
+k=${5:-}
+if [ -z "$k" ]; then k=1; while [ -e /verif/seeded/${prop}_$k ]; do k=$((k+1)); done; fi
 out=$wt/out/$n
 cd $wt || exit 2
 git checkout -q -- . ; rm -f $dest
@@ -21,7 +23,7 @@ rm -f $dest; git checkout -q -- .
 same=no; diff -q $wt/out/baseline.txt $out/suite_patched.txt >/dev/null && same=yes
 echo "seed $prop/$n: build=$b suite_same_as_baseline=$same demo_clean_exit=$clean demo_patched_exit=$patched"
 if [ $b = 0 ] && [ $same = yes ] && [ $clean = 0 ] && [ $patched != 0 ]; then
-  d=/verif/seeded/${prop}_$n; mkdir -p $d
+  d=/verif/seeded/${prop}_$k; mkdir -p $d; echo "stored as $d"
   cp $out/patch.diff $out/demo_test.go $d/; cp $out/notes.txt $d/notes.txt 2>/dev/null
   echo CONFIRMED > $d/confirmed.txt
   echo "demo destination: $dest" >> $d/confirmed.txt
